@@ -404,6 +404,61 @@ def ob_entry_points(tomo):
                                                          "numpy.random: streams of uninterpreted draws"])
 
 
+def ob_reused_experiment(which):
+    """one Experiment object used again after one of its objects was replaced -- through the setter or by item assignment on the list
+    the accessor hands out (the idiom the tomography classes use themselves) -- and after earlier calc_prob_dist / generation calls:
+    every later multinomial draw is made with the distribution of the CURRENT objects (Tr(E_x rho) from the definition), i.e. the
+    output does not depend on earlier calls"""
+    def run(I):
+        import quara.qcircuit.experiment as EX
+        out = []
+        with prng_stub() as st:
+            sts = tomo_lib.states("Q1")
+            pvs = tomo_lib.povms("Q1")
+            dms = tomo_lib.state_mats("Q1")
+            pms = tomo_lib.povm_mats("Q1")
+            exp = EX.Experiment(states=[sts[0]], povms=[pvs[0], pvs[1]], schedules=[[("state", 0), ("povm", 0)], [("state", 0), ("povm", 1)]])
+
+            def ref(si, pj):
+                return [float(np.real(np.trace(np.asarray(E) @ np.asarray(dms[si])))) for E in pms[pj]]
+
+            def draws(j):
+                n0 = len(RVS_LOG)
+                exp.generate_empi_dist_sequence(j, [9], 7)
+                return RVS_LOG[n0:]
+
+            def claim(label, j, si, pj):
+                log = draws(j)
+                want = ref(si, pj)
+                ok = len(log) == 1 and log[0][1] is not None and len(log[0][1]) == len(want) and bool(np.allclose(log[0][1], want, atol=1e-9))
+                out.append(Holds(f"{label}: schedule {j} is sampled from Tr(E_x rho) of the current state and POVM", ok))
+                got = np.asarray(nd.to_concrete(exp.calc_prob_dist(j)), dtype=float)
+                out.append(Holds(f"{label}: calc_prob_dist({j}) is that of the current objects", bool(np.allclose(got, want, atol=1e-9))))
+            claim("first use", 0, 0, 0)
+            claim("first use", 1, 0, 1)
+            exp.calc_prob_dists()
+            if which == "state-item":
+                exp.states[0] = sts[4]
+                cur = (4, 0, 1)
+            elif which == "state-setter":
+                exp.states = [sts[4]]
+                cur = (4, 0, 1)
+            elif which == "povm-item":
+                exp.povms[1] = pvs[2]
+                cur = (0, 0, 2)
+            else:
+                exp.povms = [pvs[2], pvs[0]]
+                cur = (0, 2, 0)
+            claim(f"after {which}", 0, cur[0], cur[1])
+            claim(f"after {which}", 1, cur[0], cur[2])
+            cp = exp.copy()
+            cp.states[0] = sts[3]
+            claim("after changing a copy (the original is independent)", 0, cur[0], cur[1])
+        return out
+    return FnOb([], run, max_paths=50, tv_points=0, stubs=["scipy.stats.multinomial.rvs: contract stub recording (n, p, stream)",
+                                                         "numpy.random: streams of uninterpreted draws"])
+
+
 def first_call_log(st, entry, DG, EX, p):
     """the (stream, draw number) pairs consumed by one call with an integer seed"""
     n0 = len(st.streams.log)
@@ -464,6 +519,7 @@ def obligations(tier):
     out += specs("C14.gen_data", [{"n": n, "N": N} for n, N in tiers(tier, [(2, 2), (3, 2)], [(2, 2), (3, 2), (3, 3), (4, 3)])], ob_gen_data, 3)
     out += specs("C14.empi", [{"m": m, "L": L, "K": K} for m, L, K in tiers(tier, [(2, 3, 1), (2, 3, 2), (3, 2, 2)], [(2, 3, 1), (2, 3, 2), (3, 2, 2), (2, 4, 2), (3, 3, 2), (2, 5, 1)])], ob_empi, 5)
     out += specs("C14.multinomial", [{"n": 3, "nums": [5, 10]}, {"n": 2, "nums": [1]}, {"n": 4, "nums": [3, 7, 20]}], ob_multinomial, 2)
+    out += specs("C14.reused_experiment", [{"which": w} for w in ("state-item", "state-setter", "povm-item", "povm-setter")], ob_reused_experiment, 3)
     out += specs("C14.sizes", [{"entry": e} for e in tiers(tier, ("experiment", "qst", "povmt"), ("experiment", "qst", "povmt", "qpt", "qmpt"))], ob_sizes, 3)
     out += specs("C14.entry_points", [{"tomo": t} for t in ("qst", "povmt", "qpt", "qmpt")], ob_entry_points, 3)
     out += specs("C14.seed_flow", [{"entry": e} for e in ("empi_seq", "empi_seqs", "experiment", "qst", "qst_seeded")], ob_seed_flow, 3)
